@@ -142,6 +142,12 @@ def mig13_2 (f : JO) : JO :=
 
 /-! ### 13.4 -/
 
+/-- the variables of a templating object (`variables, _ := templating["variables"].([]any)`, an empty list when there are none) -/
+def varsOf (t : JO) : JL :=
+  match get "variables".toList t with
+  | some (.arr l) => l
+  | _ => .nil
+
 def lang13_4 (tu body : Str) (lt : JO) : JO :=
   match getTranslation lt tu "variables".toList with
   | some vs => deleteTranslation (setTranslation lt body "params".toList vs) tu "variables".toList
@@ -153,9 +159,7 @@ def act13_4 (gen : Nat → Str) (s : Nat × Option JO) (a : JO) : (Nat × Option
     | some (.obj t) =>
       let tu := objUUID t
       let body := gen s.1
-      let vars : JL := match get "variables".toList t with
-        | some (.arr l) => l
-        | _ => .nil
+      let vars : JL := varsOf t
       let comp : J := .obj (.cons "uuid".toList (.str body) (.cons "name".toList (.str "body".toList)
         (.cons "params".toList (.arr vars) .nil)))
       let t1 := set "components".toList (.arr (.cons comp .nil)) t
